@@ -211,3 +211,25 @@ def run_case(ctx, rng, idx):
         except Exception as e:
             ctx.check("C05:extract", False, f"C05:subhypergraph_largest_component:raised:{type(e).__name__}", wit)
         unchanged("subhypergraph_largest_component")
+        # the same source again after an in-place edit that keeps the node and hyperedge counts
+        from ..mutate import same_count_edit
+
+        if not getattr(run_case, "_in_second_pass", False) and same_count_edit(rng, h):
+            ctx.event("re-evaluated-after-in-place-edit")
+            S2 = observe(h)
+            comps = components(S2.nodes, [k for k in S2.edges])
+            big = max(len(c_) for c_ in comps)
+            maximal = [c_ for c_ in comps if len(c_) == big]
+            try:
+                g = h.subhypergraph_largest_component()
+                Gn = set(g.get_nodes())
+                ok = any(c_ == Gn for c_ in maximal)
+                ctx.check("C05:extract", ok, "C05:subhypergraph_largest_component:not-a-largest-component:after-in-place-edit",
+                          lambda: {"source": S2.describe(), "got": sorted(map(repr, Gn)), "maximal": [sorted(map(repr, c_)) for c_ in maximal]})
+                if ok:
+                    E = expected(S2, kind, lambda k: K.nodes(k) <= Gn, [n for n in S2.nodes if n in Gn])
+                    judge(ctx, "subhypergraph_largest_component:after-in-place-edit", g, E, lambda: {"source": S2.describe()})
+            except CaseAbort:
+                raise
+            except Exception as e:
+                ctx.check("C05:extract", False, f"C05:subhypergraph_largest_component:raised:{type(e).__name__}:after-in-place-edit", lambda: {"source": S2.describe()})
